@@ -15,6 +15,8 @@ lookup      get_sample_index(t, policy): all strictly increasing time lists of l
             rationals.
 lookup-dup  the same with time lists that contain one duplicated time; any index with the same time value
             as the reference answer is accepted.
+lookup-long beyond the small scope: time lists of 5..33 samples (regular, irregular, with duplicated times), queries on
+            every sample time, every midpoint, just inside each interval from both ends, outside; two units; 3 policies.
 lookup-history   (E2) call histories on ONE trajectory object: the same number in s, ms, min, h in all 24 orders,
             in every ordered pair of units with mixed UnitValue / str forms, interleaved over the three policies,
             and long histories over all numbers x units x policies, run twice; every answer against the oracle.
@@ -1105,6 +1107,98 @@ def _check_network_edited(case, out, stats):
         _check_accessors(tr, ns, nsp, nc, space, "molecule", spform, posform, out, stats, rev=rev, prefix="netedit-",
                          suffix=suffix, note=note + " ", labels=final)
 
+
+# ---- sample-index lookup beyond the small scope (long time lists) ---------------------------------------
+
+LONG_NS = [5, 6, 7, 8, 9, 16, 17, 33]
+LONG_KINDS = ["regular", "irregular", "dup-middle", "dup-ends"]
+LONG_GAPS = [F(1, 4), F(1), F(1, 2), F(2), F(1, 8), F(3, 4), F(3, 2)]
+LONG_EPS = F(1, 1024)
+
+
+def _long_times(n, kind):
+    """n never-decreasing sample times (exact dyadic rationals, in the storage unit)."""
+    def irregular(m):
+        out, t = [], F(1, 4)
+        for i in range(m):
+            out.append(t)
+            t += LONG_GAPS[i % len(LONG_GAPS)]
+        return out
+    if kind == "regular":
+        return [F(i, 2) for i in range(n)]
+    if kind == "irregular":
+        return irregular(n)
+    if kind == "dup-middle":                       # one time recorded twice
+        base = irregular(n - 1)
+        j = (n - 1) // 2
+        return base[:j + 1] + base[j:]
+    if kind == "dup-ends":                         # first and last time recorded twice
+        base = irregular(n - 2)
+        return [base[0]] + base + [base[-1]]
+    raise ValueError(kind)
+
+
+def _long_queries(times):
+    d = sorted(set(times))
+    qs = [d[0] - 1] + list(d)
+    for a, b in zip(d, d[1:]):
+        qs += [(a + b) / 2, a + LONG_EPS, b - LONG_EPS]
+    qs.append(d[-1] + 1)
+    return sorted(set(qs))
+
+
+def _check_lookup_long(case, out, stats):
+    n, kind, tunit = case["n"], case["kind"], case["tunit"]
+    times = _long_times(n, kind)
+    dup = kind.startswith("dup")
+    T = [x * _tscale(tunit) for x in times]
+    system = _mk_system(1, ["grid", 1, 1, 1])
+    tr = RDTrajectory(UnitArray([0.0] * n, "molecule"), UnitArray([float(x) for x in times], tunit), system)
+    other = OTHER_TUNIT[tunit]
+    only = case.get("only")
+    for qi, q in enumerate(_long_queries(times)):
+        region = _region(T, q * _tscale(tunit))
+        for ui, (qunit, form) in enumerate(((tunit, "UnitValue"), (other, "str"))):
+            v = float(q) if qunit == tunit else _query_value(q, tunit, qunit)
+            arg = UnitValue(v, qunit) if form == "UnitValue" else "%r %s" % (v, qunit)
+            shown = repr(arg) if form == "str" else "UnitValue(%r, %r)" % (v, qunit)
+            for policy in POLICIES:
+                if only is not None and [qi, ui, policy] != list(only):
+                    continue
+                accept = _accept_set(policy, T, tunit, v, qunit)
+                if len(accept) > 1:
+                    stats["near_tie"] += 1
+                if dup:
+                    acc2 = []
+                    for r in accept:
+                        if r is None:
+                            acc2.append(None)
+                        else:
+                            acc2.extend(j for j in range(n) if T[j] == T[r] and j not in acc2)
+                    accept = acc2
+                stats["transitions"] += 1
+                stats["evaluations"] += 1
+                if region in ("between", "midpoint", "on-sample") and accept not in ([0], [n - 1], [None]):
+                    stats["long_lookups_strictly_inside"] += 1
+                ktail = "%s:%s%s" % (region, "same-unit" if qunit == tunit else "cross-unit", ":dup" if dup else "")
+                ctxt = "%d %s samples t=%s %s, get_sample_index(%s, %r)" % (n, kind, [float(x) for x in times], tunit, shown, policy)
+                try:
+                    got = tr.get_sample_index(arg, policy)
+                except Exception as e:
+                    out.append(("C17:get_sample_index-long:%s:unexpected-exception:%s" % (policy, ktail),
+                                "%s raised %s: %s" % (ctxt, type(e).__name__, e)))
+                    continue
+                if got is not None and (isinstance(got, bool) or not isinstance(got, numbers.Integral)):
+                    out.append(("C17:get_sample_index-long:%s:result-type:%s" % (policy, ktail), "%s returned %r" % (ctxt, got)))
+                    continue
+                if got is not None:
+                    got = int(got)
+                if got in accept:
+                    continue
+                cls = "none-but-sample-exists" if got is None else ("index-but-no-such-sample" if accept == [None] else "wrong-index")
+                out.append(("C17:get_sample_index-long:%s:%s:%s" % (policy, cls, ktail),
+                            "%s returned %r, expected %s" % (ctxt, got, " or ".join(repr(a) for a in accept))))
+
 # ---- unknown species -------------------------------------------------------------------------------
 
 def _check_unknown(case, out, stats):
@@ -1195,7 +1289,8 @@ _STAT_KEYS = ("transitions", "evaluations", "near_tie", "near_tie_not_lattice_an
               "modify_steps_NOT_reflected_by_direct_indexing", "provenance_producer_raised",
               "provenance_save_load_raised", "provenance_unexpected_data_length", "provenance_trajectories_read",
               "carrier_accepted", "carrier_rejected", "carrier_coordinates_do_not_fit",
-              "network_edits_read", "network_edit_rejected", "network_edit_not_determined")
+              "network_edits_read", "network_edit_rejected", "network_edit_not_determined",
+              "long_lookups_strictly_inside")
 
 
 def _new_stats():
@@ -1226,6 +1321,8 @@ def check_case(case, stats=None):
             _check_lookup_modify(case, out, stats)
         elif sub == "provenance":
             _check_provenance(case, out, stats)
+        elif sub == "lookup-long":
+            _check_lookup_long(case, out, stats)
         elif sub == "network-edited":
             _check_network_edited(case, out, stats)
         elif sub == "flag-carrier":
@@ -1336,6 +1433,19 @@ def _spaces(tier):
     sp.append(("lookup-dup: %d non-decreasing time lists with one duplicated time (length 2..4) x %d (storage unit, query "
                "unit, form) combinations; 17 queries x 3 policies inside" % (len(TD), len(upf_dup)),
                gen_dup, len(TD) * len(upf_dup), 40))
+
+    # ---- long time lists (beyond the small scope)
+    ltunits = TUNITS if tier == "thorough" else ["s", "min"]
+
+    def gen_long():
+        for n in LONG_NS:                     # simplest first; later sub-spaces keep the workers busy meanwhile
+            for kind in LONG_KINDS:
+                for tunit in ltunits:
+                    yield {"sub": "lookup-long", "n": n, "kind": kind, "tunit": tunit}
+    sp.append(("lookup-long: time lists of %s samples x %s x storage units %s; queries = before the first, every sample "
+               "time, every midpoint, a point 2^-10 inside each interval from both ends, after the last; as UnitValue in "
+               "the storage unit and as str in another unit; 3 policies" % (LONG_NS, LONG_KINDS, ltunits),
+               gen_long, len(LONG_NS) * len(LONG_KINDS) * len(ltunits), 1))
 
     # ---- histories on one object
     htunits = TUNITS if tier == "thorough" else ["s", "min"]
@@ -1526,6 +1636,8 @@ def _nontrivial(case):
         return case["ns"] * case["nsp"] * case["nc"] > 1
     if sub in ("lookup", "lookup-dup"):
         return len(case["times"]) > 1 or case["tunit"] != case["qunit"]
+    if sub == "lookup-long":
+        return True
     if sub == "lookup-history":
         return case.get("v", 1.0) != 0.0          # the number 0 is the same time in every unit
     if sub in ("accessor-history", "accessor-modify"):
@@ -1620,6 +1732,21 @@ def _minimise(ctx):
                 hit = [w for (kk, w) in check_case(c2) if kk == v.key]
                 if hit:
                     v.case, v.what = c2, hit[0]
+            elif case.get("sub") == "lookup-long" and "only" not in case:
+                done = False
+                for qi in range(len(_long_queries(_long_times(case["n"], case["kind"])))):
+                    for ui in (0, 1):
+                        for p_ in POLICIES:
+                            c2 = dict(case)
+                            c2["only"] = [qi, ui, p_]
+                            hit = [w for (kk, w) in check_case(c2) if kk == v.key]
+                            if hit:
+                                v.case, v.what, done = c2, hit[0], True
+                                break
+                        if done:
+                            break
+                    if done:
+                        break
             elif case.get("sub") in ("lookup", "lookup-dup") and "only" not in case:
                 done = False
                 for qi in range(len(QUERIES)):
